@@ -6,7 +6,7 @@ V = os.path.abspath(os.path.join(os.path.dirname(__file__), ".."))
 NOTE = ("Trusted: Coq 8.16.1 kernel/coqc and vm_compute (no native_compute); no axioms (Print Assumptions of every property "
         "theorem is checked to be 'Closed under the global context' on every run; the one exception is Props/C03float.v, which uses Flocq over Coq's reals "
         "and depends on the standard library's ClassicalDedekindReals.sig_forall_dec, sig_not_dec, FunctionalExtensionality.functional_extensionality_dep and Classical_Prop.classic); the translators py2gallina.py (arithmetic kernel), py2gallina_cache.py (cache decisions), "
-        "py2gallina_revise.py (recursion of ReviseAnno over data frames: its table of pandas idioms) and py2gallina_cf.py (queue/event loops as interaction programs); the "
+        "py2gallina_revise.py (recursion of ReviseAnno over data frames: its table of pandas idioms), py2gallina_guards.py (refusal guards as boolean functions) and py2gallina_cf.py (queue/event loops as interaction programs); the "
         "correspondence harness (generators, drivers, abstraction, float rule); CPython/pandas/numpy/h5py. "
         "Modelled, not verified: int32/float32 narrowing, pandas/h5py semantics (tied by execution).")
 
@@ -37,8 +37,8 @@ CHECKS = {
         text="Theorems c04_runs/c04_perm for all permutations of either file; each generated pair run in 4-6 row orders through the real stages, outputs compared with each other and with the model.",
         design="DESIGN.md 6 C04"),
     "C05": dict(
-        technique="Coq proof (locality of a chromosome's file; refusal iff chromosome sets differ) + differential execution",
-        text="Theorems c05_local/genes/files/reject; variants differing only on other chromosomes and chromosome-set mismatches (equal and unequal cardinality, interleaving name orders) through the real stages and the CLI.",
+        technique="Coq proof (locality of a chromosome's file; refusal iff chromosome sets differ) + _validate_split translated from /repo on every run and proved equal to the model's + differential execution",
+        text="Theorems c05_local/genes/files/reject; c18_code_validate_split(_iff): PreProcessor._validate_split as translated from the current sources accepts two sorted key lists iff they are equal; variants differing only on other chromosomes and chromosome-set mismatches (equal and unequal cardinality, interleaving name orders) through the real stages and the CLI.",
         design="DESIGN.md 6 C05"),
     "C06": dict(
         technique="Coq proof (count invariant under shift and reflection, monotone in the range; transported through the C01 refinement) + differential execution on triples",
@@ -87,9 +87,10 @@ CHECKS = {
              "Then as C12: atomic intermediates, crash-state membership, re-run against model and uninterrupted run.",
         design="DESIGN.md 6 C17"),
     "C13": dict(
-        technique="Coq proof (invariant of the cache state machine over all histories of edits/touches/runs/interrupted runs, any number of chromosomes, any mtime ties; refresh theorem for every disk) + per-run correspondence on real histories",
-        text="Theorems c13_rerun/refresh/fresh_directory/windows over Model/Cache.v (symbolic versions, the mtime comparisons of the code as freshness relations, atomic writes, tie oracle); pinned reuse rules refuted (c13_legacy_refuted). "
-             "Histories of runs with every flag subset, edits of either annotation and the windows, touches, mtime-preserving edits and backdated caches are executed on the real command line under the launcher; "
+        technique="Coq proof (invariant of the cache state machine over all histories of edits/touches/runs/interrupted runs, any number of chromosomes, any mtime ties; refresh theorem for every disk) + cache decisions and merge guards translated from /repo on every run and proved equal to the model's + per-run correspondence on real histories",
+        text="Theorems c13_code_windows_guard/gene_names_guard/chromosome_guard: MergeData's three guards as translated from the current sources accept an overlap file iff its windows, gene names and chromosome id EQUAL the request's, and MergeData.sum calls them first; "
+             "c13_rerun/refresh/fresh_directory/windows over Model/Cache.v (symbolic versions, the mtime comparisons of the code as freshness relations, atomic writes, tie oracle); pinned reuse rules refuted (c13_legacy_refuted). "
+             "Histories of runs with every flag subset, edits of either annotation and the windows (to a superset, subset, front-trimmed list, same count, same ends, shifted list), touches, mtime-preserving edits, backdated caches and runs killed during the revision are executed on the real command line under the launcher; "
              "every run is abstracted (contents against fresh-directory references, flags from os.path.getmtime) and compared with the model's run: files rewritten, contents afterwards, exit status, every result cell. "
              "Assumed, named in the evidence: no file carries an mtime later than the clock (a future-dated overlap file defeats the refresh; outside the property's 'touch'); edits stay within the existing chromosomes.",
         design="DESIGN.md 6 C13"),
@@ -110,9 +111,10 @@ CHECKS = {
              "recording which annotation each file received and what was served; tampered (mismatching) directories must be refused.",
         design="DESIGN.md 6 C16"),
     "C18": dict(
-        technique="Coq proof (rejection for every row position and surrounding content; results only after all checks) + malformed-input stream",
-        text="Theorems c18_dup/strand/column/chroms/no_result over the model of the import checks (any position of the offending row); one defect inserted at first/last/random (thorough: every) row position "
-             "of generated pairs through the real library stages and a sample through the CLI: must raise / exit non-zero with no <genome>_<chrom>.h5.",
+        technique="Coq proof (rejection for every row position and surrounding content; results only after all checks) + check_strand and _validate_split translated from /repo on every run and proved equal to the model's checks + malformed-input stream",
+        text="Theorems c18_dup/strand/column/chroms/no_result over the model of the import checks (any position of the offending row); c18_code_check_strand / c18_code_validate_split: the code's strand whitelist and chromosome check, as translated, "
+             "are the model's (the translator also checks that import_filtered_genes calls check_strand and indexes by Gene_Name with verify_integrity=True); one defect inserted at first/last/random (thorough: every) row position "
+             "of generated pairs through the real library stages (gene-side defects also in an output directory where the valid pair was processed before, files edited in place with older mtimes) and a sample through the CLI: must raise / exit non-zero with no <genome>_<chrom>.h5 written.",
         design="DESIGN.md 6 C18"),
     "C19": dict(
         technique="Coq proof (case analysis of the open sequence; induction over open/write histories) + histories on real HDF5 files",
